@@ -10,17 +10,17 @@
            | 'L' nm l1 (l2|'-') disphex           lref to labels l1[,l2] of the G function (0..2)
            | 'E' nm fn                            expr data, fn = index of an F item
            | 'F' ty prefix-expr                   expression function
-           | 'G'                                  function g(tab, off): jmpi *(tab+off); L<k>: ret 100+k
+           | 'G'                                  function g(sel, x): sel=0: jmpi x; sel=k+1: laddr of L<k>; L<k>: ret 100+k
            | 'Oi' | 'Op' | 'Of' def | 'Ox' def    import / proto / forward of def / export of def
    nm     := '-' | number                         anonymous, or the name d<number>
-   expr   := c<hex> | a<idx> | (+|-|*|&|'|'|^) e e | n e | s8|s16|s32|u8|u16|u32 e | (<|>|]) e k | f<hex>
+   expr   := c<hex> | a<idx> | (+|-|*|&|'|'|^) e e | n e | m e (load: not an expression function) | s8|s16|s32|u8|u16|u32 e | (<|>|]) e k | f<hex>
 
    Output: `ok A idx:addr ...` (address of every item that has one) ` P idx@head+off ...` (every
    data-like item: nearest preceding item with section_head_p, and the distance from it)
    ` S head:allocated:hexbytes ...` (per head: size passed to malloc and the bytes found)
-   ` J:ok|bad` (jmpi through the harness's own label table reaches each label) ` LR idx:ok|bad`
-   (each lref item holds label address + disp, or the label difference + disp, consistent with the
-   harness's table in the same engine).  On an error: `E:<code>`. */
+   ` J:ok|bad` (jmpi to each label address obtained with laddr reaches the label) ` LR idx:ok|bad`
+   (each lref item holds label address + disp, or the label difference + disp, against the laddr
+   addresses of the same engine, read after g was prepared for execution).  On an error: `E:<code>`. */
 #include <stdio.h>
 #include <stdlib.h>
 #include <string.h>
@@ -257,6 +257,9 @@ static MIR_reg_t comp_expr (void) {
   } else if (t[0] == 'n') {
     MIR_reg_t a = comp_expr ();
     MIR_append_insn (ectx, efunc, MIR_new_insn (ectx, MIR_NEG, ro, MIR_new_reg_op (ectx, a)));
+  } else if (t[0] == 'm') { /* a memory operand: the function is no expression function any more */
+    MIR_reg_t a = comp_expr ();
+    MIR_append_insn (ectx, efunc, MIR_new_insn (ectx, MIR_MOV, ro, MIR_new_mem_op (ectx, MIR_T_I64, 0, a, 0, 1)));
   } else if (t[0] == 's' || t[0] == 'u') {
     int bits = atoi (t + 1);
     MIR_reg_t a = comp_expr ();
@@ -318,18 +321,34 @@ static void build_func (MIR_context_t ctx, int idx) {
 }
 
 static MIR_label_t glabels[3];
+/* g (sel, x): sel == 0: jmpi x;  sel == k+1: return the address of label k (laddr);
+   L<k>: ret 100+k */
 static void build_g (MIR_context_t ctx, int idx) {
   char name[32];
   MIR_type_t i64 = MIR_T_I64;
-  MIR_var_t args[2] = {{MIR_T_I64, "tab", 0}, {MIR_T_I64, "off", 0}};
+  MIR_var_t args[2] = {{MIR_T_I64, "sel", 0}, {MIR_T_I64, "x", 0}};
   item_name (name, idx);
   MIR_item_t g = MIR_new_func_arr (ctx, name, 1, &i64, 2, args);
   items[idx].it = g;
-  MIR_reg_t tab = MIR_reg (ctx, "tab", g->u.func), off = MIR_reg (ctx, "off", g->u.func);
+  MIR_reg_t sel = MIR_reg (ctx, "sel", g->u.func), x = MIR_reg (ctx, "x", g->u.func);
   MIR_reg_t p = MIR_new_func_reg (ctx, g->u.func, MIR_T_I64, "p");
+  MIR_label_t jump = MIR_new_label (ctx), a[3];
+  for (int k = 0; k < 3; k++) a[k] = MIR_new_label (ctx);
   MIR_append_insn (ctx, g,
-                   MIR_new_insn (ctx, MIR_MOV, MIR_new_reg_op (ctx, p), MIR_new_mem_op (ctx, MIR_T_I64, 0, tab, off, 1)));
-  MIR_append_insn (ctx, g, MIR_new_insn (ctx, MIR_JMPI, MIR_new_reg_op (ctx, p)));
+                   MIR_new_insn (ctx, MIR_BEQ, MIR_new_label_op (ctx, jump), MIR_new_reg_op (ctx, sel),
+                                 MIR_new_int_op (ctx, 0)));
+  for (int k = 0; k < 2; k++)
+    MIR_append_insn (ctx, g,
+                     MIR_new_insn (ctx, MIR_BEQ, MIR_new_label_op (ctx, a[k]), MIR_new_reg_op (ctx, sel),
+                                   MIR_new_int_op (ctx, k + 1)));
+  for (int k = 2; k >= 0; k--) {
+    MIR_append_insn (ctx, g, a[k]);
+    MIR_append_insn (ctx, g,
+                     MIR_new_insn (ctx, MIR_LADDR, MIR_new_reg_op (ctx, p), MIR_new_label_op (ctx, glabels[k])));
+    MIR_append_insn (ctx, g, MIR_new_ret_insn (ctx, 1, MIR_new_reg_op (ctx, p)));
+  }
+  MIR_append_insn (ctx, g, jump);
+  MIR_append_insn (ctx, g, MIR_new_insn (ctx, MIR_JMPI, MIR_new_reg_op (ctx, x)));
   for (int k = 0; k < 3; k++) {
     MIR_append_insn (ctx, g, glabels[k]);
     MIR_append_insn (ctx, g, MIR_new_ret_insn (ctx, 1, MIR_new_int_op (ctx, 100 + k)));
@@ -424,12 +443,6 @@ static void run_case (char *line) {
     case K_EXPORT: item_name (name, p->def); p->it = MIR_new_export (ctx, name); break;
     }
   }
-  MIR_item_t lt = NULL;
-  if (have_g >= 0) { /* the harness's own label table, a named section after everything else */
-    lt = MIR_new_lref_data (ctx, "lt_tab", glabels[0], NULL, 0);
-    MIR_new_lref_data (ctx, NULL, glabels[1], NULL, 0);
-    MIR_new_lref_data (ctx, NULL, glabels[2], NULL, 0);
-  }
   MIR_finish_module (ctx);
   for (int i = 0; i < nitems; i++)
     if (items[i].k == K_IMPORT) {
@@ -453,9 +466,9 @@ static void run_case (char *line) {
   int64_t ltv[3] = {0, 0, 0};
   if (have_g >= 0) {
     int64_t (*g) (int64_t, int64_t) = (int64_t (*) (int64_t, int64_t)) items[have_g].it->addr;
+    for (int k = 0; k < 3; k++) ltv[k] = g (k + 1, 0);
     for (int k = 0; k < 3; k++)
-      if (g ((int64_t) lt->addr, 8 * k) != 100 + k) jok = 0;
-    memcpy (ltv, lt->addr, 24);
+      if (g (0, ltv[k]) != 100 + k) jok = 0;
   }
   printf ("ok A");
   for (int i = 0; i < nitems; i++)
